@@ -8,6 +8,14 @@ VERIF = os.path.dirname(os.path.dirname(os.path.abspath(__file__)))
 
 # property -> (technique, clause decided, trusted base / what is not decided, DESIGN ref)
 CLAIMS = {
+    "C34": ("non-null dataflow over libelf accessor results, buffer-pointer derivation from Elf_Data::d_buf with a "
+            "dominating-size-test rule, guarded-division rule for sh_entsize, assertion classification",
+            "in the ELF symbol readers (hash-table lookups, symtab loader, version and dynamic-section readers): "
+            "libelf results that fail on corrupted sections are checked before use, reads through section-data "
+            "pointers are preceded by a size test, divisions by sh_entsize are guarded and no assertion depends on "
+            "file contents - or the site is one of 15 recorded, replayed findings",
+            "elfutils' own memory safety; the DWARF part of the reader; ppc64-only paths are listed as undecided",
+            "§3 R-ELFNULL, R-ELFBOUND, R-INASSERT; §4 C34"),
     "C14": ("type-directed loop classification (address-dependent containers from canonical template arguments) and "
             "pointer-comparison lint over every comparator handed to std::sort and the ordering helpers it delegates to",
             "loops over pointer-keyed / interned_string-keyed unordered containers and pointer-ordered sets never "
